@@ -48,7 +48,7 @@ func (c *C18Case) NTKey() string {
 		seen := map[int]bool{}
 		for _, o := range p {
 			switch o.Op {
-			case "Iterate", "Add", "Lt", "Sum", "Argmax", "MatMul", "Dot", "Materialize", "Slice", "Inner", "Clone":
+			case "Iterate", "MultIterate", "Add", "Lt", "Sum", "Argmax", "MatMul", "Dot", "Materialize", "Slice", "Inner", "Clone":
 				seen[o.Shared] = true
 			}
 		}
@@ -64,7 +64,7 @@ func (c *C18Case) NTKey() string {
 	return ""
 }
 
-var c18SharedOps = []string{"At", "Slice", "Iterate", "Add", "AddShared", "AddScalar", "ScalarSub", "LtScalar", "Lt", "Sum", "Max", "Argmax", "Inner", "MatVecMul", "MatMul", "Dot", "TensorMul", "Clone", "Materialize", "Sprint", "T-safe", "Repeat", "Stack", "Apply", "PrivateUnsafe", "PrivateReturn", "PrivateScalarOther", "PrivateTensorMul"}
+var c18SharedOps = []string{"At", "Slice", "Iterate", "MultIterate", "Add", "AddShared", "AddScalar", "ScalarSub", "LtScalar", "Lt", "Sum", "Max", "Argmax", "Inner", "MatVecMul", "MatMul", "Dot", "TensorMul", "Clone", "Materialize", "Sprint", "T-safe", "Repeat", "Stack", "Apply", "PrivateUnsafe", "PrivateReturn", "PrivateScalarOther", "PrivateTensorMul"}
 
 // runOp performs one operation and returns a digest of what it delivered.
 func c18RunOp(o C18Op, shared []*tensor.Dense, sharedM []Arr, priv **tensor.Dense) string {
@@ -103,6 +103,17 @@ func c18RunOp(o C18Op, shared []*tensor.Dense, sharedM []Arr, priv **tensor.Dens
 		var offs []int
 		for i, err := it.Next(); err == nil; i, err = it.Next() {
 			offs = append(offs, i)
+		}
+		return fmt.Sprint(offs)
+	case "MultIterate":
+		// a multi-iterator over the shared tensor and a private one of the same shape
+		if len(m.Shape) == 0 {
+			return "-"
+		}
+		it := tensor.MultIteratorFromDense(s, fresh(m.Shape, 0))
+		var offs []int
+		for _, err := it.Next(); err == nil; _, err = it.Next() {
+			offs = append(offs, it.LastIndex(0), it.LastIndex(1))
 		}
 		return fmt.Sprint(offs)
 	case "Add":
